@@ -223,7 +223,7 @@ def ch_inject(ctx) -> Channel:
     with app.ctx() as m:
         nseg = {u: m.MediaFile.get(name=I.TRACKS[u][0]).representation.num_media_segments for u in "vat"}
     cases = []
-    for _ in range(ctx.scale(110, 1500)):
+    for _ in range(ctx.scale(110, 1200)):
         cases.append(I.gen_media_case(rng, nseg) if rng.random() < .7 else I.gen_manifest_case(rng))
     lines = [I.driver_line(c) for c in cases]
     try:
@@ -623,7 +623,7 @@ def ch_fuzz_http(ctx) -> Channel:
         fz.regressions()
         fz.sweep()
         fz.every_option()
-        fz.random_gets(ctx.scale(2300, 60000))
+        fz.random_gets(ctx.scale(2300, 45000))
         fz.mutating(ctx.scale(250, 4000))
         ch.count("seconds", int(time.perf_counter() - t0))
     ch.sample({"routes": len(fz.rules), "option_names": len(fz.names), "streams": fz.P["streams"],
